@@ -143,6 +143,46 @@ def run(ck):
                     lead = (2, "Bv", "Bp") if expand else (2, "B")
                     want = lead + (layout_dim(p.interp, m),)
                     ck.check(g.shape == want, "C03.R2", inst + ":segments in parameter registration order", gsite, "layout %s, expected %s" % (show(g.shape), show(want)))
+                    # R6: Gamma-gradient segments are the derivatives of Gamma = (f(v) + sign f(vp))/2, f(x) = x.b + sum softplus(W x + c)
+                    it = p.interp
+                    R = role_terms(it, m)
+                    comps = T.as_stack0(g.term) if g.term is not None else None
+                    if comps is None or len(comps) != 2:
+                        ck.undecided("C03.R6", inst + ":complex pair", gsite, "gamma_grad is not a (re, im) pair")
+                        continue
+                    ck.check(comps[1].is_zero(), "C03.R6", inst + ":imaginary part is zero", gsite, "the gradient of the real matrix Gamma has a non-zero imaginary part")
+                    at = comps[0].single_atom()
+                    names = [n for n, _ in module_params(it, m)]
+                    if at is None or not isinstance(at, T.App) or at.op != "cat" or len(at.args[0]) != len(names):
+                        ck.undecided("C03.R6", inst + ":segments", gsite, "gamma_grad is not a concatenation of one segment per parameter")
+                        continue
+                    v, vp = T.sym("v"), T.sym("vp")
+                    sg = T.const(eta)
+                    if expand:
+                        def row(t, rk):
+                            return T.app("unsq", t, -rk, rk + 1) if False else T.app("unsq", t, 1 - (rk + 1), rk + 1)
+
+                        def col(t, rk):
+                            return T.app("unsq", t, 0 - (rk + 1), rk + 1)
+                    else:
+                        row = col = lambda t, rk: t  # noqa: E731
+                    ph, php = T.sigmoid(aff(v, R["W"], R["c"])), T.sigmoid(aff(vp, R["W"], R["c"]))
+                    half = T.Fraction(1, 2)
+                    want_seg = {
+                        "W": half * (row(T.app("einsum2", "...j,...k->...jk", ph, v), 3) + sg * col(T.app("einsum2", "...j,...k->...jk", php, vp), 3)),
+                        "b": half * (row(v, 2) + sg * col(vp, 2)),
+                        "c": half * (row(ph, 2) + sg * col(php, 2)),
+                        "U": T.ZERO, "d": T.ZERO,
+                    }
+                    role_of = {n: r for r, (n, _) in params_by_shape(it, m).items()}
+                    for st, n in zip(at.args[0], names):
+                        got = _strip_flat(st)
+                        w = want_seg[role_of[n]]
+                        if got == w:
+                            ck.ok("C03.R6", "%s:d Gamma/d%s" % (inst, n), gsite)
+                        else:
+                            d = lin_diff(got, w)
+                            ck.check(diff_verdict(d), "C03.R6", "%s:d Gamma/d%s" % (inst, n), gsite, "Gamma-gradient segment of %s vs the derivative of Gamma: %s" % (n, diff_msg(d)), got=got, want=w)
     for phase in (False, True):
         for expand in (True, False):
             inst = "DensityMatrix.pi_grad/phase=%s/expand=%s" % (phase, expand)
